@@ -321,6 +321,13 @@ def main():
             except Exception:
                 return t
 
+        def _variants(t):
+            # the input as given, normalised, in lower case, and with its hashtags cut out (separator, letter-case and label
+            # variants of a listed input are the same finding: the equivalences of C11 and C10)
+            n = _normalised(t)
+            nl = re.sub(" +", " ", re.sub("#[a-zA-Z0-9_-]+", "", n)).strip()
+            return [t, n, n.lower(), nl, nl.lower()]
+
         def unlisted(fs):
             rest = []
             for x in fs:
@@ -328,7 +335,7 @@ def main():
                 for f in findings:
                     # the key is matched against the input as given, against its normalised form and against that in lower case
                     # (separator and letter-case variants of a listed input are the same finding: C11's equivalences)
-                    if x.get("text") is not None and (re.search(f["regex"], x["text"]) or re.search(f["regex"], _normalised(x["text"])) or re.search(f["regex"], _normalised(x["text"]).lower())):
+                    if x.get("text") is not None and any(re.search(f["regex"], v) for v in _variants(x["text"])):
                         if f.get("depth0"):
                             o2 = dict(x.get("opts") or {}); o2["max_stack_depth"] = 0
                             r2 = eval_case((x["text"], tuple(x["ts"]) if x.get("ts") else None, {k: v for k, v in o2.items() if k in ("latent_time", "max_stack_depth", "relative_match_len")}))
